@@ -3638,3 +3638,78 @@ def rule_quadric_duality(run: Run, prog: Program) -> int:
         if n == 3:
             ob("dual is an involution", c4)
     return n_ob
+
+
+class _Captured(Exception):
+    def __init__(self, table, flag):
+        super().__init__("captured")
+        self.table, self.flag = table, flag
+
+
+def rule_conic_line(run: Run, prog: Program) -> int:
+    """C14, intersect(line) in the plane: the matrix whose components are returned is the point pair cut out of the conic by the line"""
+    run.rule("E19.isect", "QuadricTensor.intersect(line) for a non-degenerate symbolic conic Q and the line through two symbolic points a, c, interpreted up to the call of "
+                          "`components`: the matrix handed on is a non-zero polynomial multiple of C a a^T - B (a c^T + c a^T) + A c c^T with A = a^T Q a, B = a^T Q c, "
+                          "C = c^T Q c - the symmetric product of the two points a + t c with A + 2 B t + C t^2 = 0 - and it is handed on as a quadric of the other kind "
+                          "(a point pair); that `components` returns the two factors of such a matrix is E19.comp (C15)")
+    quad = prog.find_cls("QuadricTensor")
+    fn = prog.lookup(quad, "intersect") if quad else None
+    if fn is None:
+        run.add("E19.isect", "QuadricTensor.intersect", "conic and line", UNDECIDED, "intersect not found", "")
+        return 0
+    fn = prog.body_of(fn)
+    family = {c.name for c in prog.classes.values() if any(b is quad for b in prog.mro(c))}
+    q = Table.full((3, 3), lambda idx: LP.sym(f"q{min(idx)}{max(idx)}"))
+    a = [LP.sym(f"a{i}") for i in range(3)]
+    c = [LP.sym(f"c{i}") for i in range(3)]
+    line = [a[1] * c[2] - a[2] * c[1], a[2] * c[0] - a[0] * c[2], a[0] * c[1] - a[1] * c[0]]
+
+    def form(x, y):
+        return sum((x[i] * q.data[(i, j)] * y[j] for i in range(3) for j in range(3)), LP())
+    aa, bb, cc = form(a, a), form(a, c), form(c, c)
+    ref = Table.full((3, 3), lambda idx: cc * a[idx[0]] * a[idx[1]] - bb * (a[idx[0]] * c[idx[1]] + c[idx[0]] * a[idx[1]]) + aa * c[idx[0]] * c[idx[1]])
+    n_ob = 0
+    for is_dual in (False,):
+        n_ob += 1
+        label = "a non-degenerate conic and the line through two points"
+        conic = TensorSym(q, 0, 2, {"Tensor", "ProjectiveTensor", "QuadricTensor"})
+        conic.is_dual = is_dual
+        other = TensorSym(Table((3,), {(i,): line[i] for i in range(3)}), 0, 1, {"SubspaceTensor", "LineTensor", "Tensor", "ProjectiveTensor"})
+
+        def capture(args_, kw_):
+            t = args_[0].array if args_ and isinstance(args_[0], TensorSym) else args_[0] if args_ else None
+            if isinstance(t, Table) and t.shape == (3, 3):
+                raise _Captured(t, kw_.get("is_dual", args_[1] if len(args_) > 1 else False))
+            return Opaque("quadric constructor")
+        it = Interp(prog, None, {})
+        it.generic = True
+        it.hooks = {"from_array": capture, "cls": capture}
+        for nm in family:
+            it.hooks[nm] = capture
+        got = None
+        try:
+            it.run_method(fn, conic, [other], {})
+            run.add("E19.isect", fn.short, label, UNDECIDED, "no quadric is built from a 3x3 matrix on the path of a non-degenerate conic", fn.loc)
+            continue
+        except _Captured as cap:
+            got = cap
+        except RaisedIn as r:
+            run.add("E19.isect", fn.short, label, VIOLATION, f"raises {r.name} for a conic and a line in general position", fn.loc)
+            continue
+        except (Unknown, NotPolynomial, RecursionError, KeyError, IndexError, TypeError, AttributeError) as ex:
+            run.add("E19.isect", fn.short, label, UNDECIDED, f"not read: {type(ex).__name__}: {str(ex)[:100]}", fn.loc)
+            continue
+        keys = sorted(ref.data)
+        t = got.table
+        prop = not all(t.data[k].is_zero() for k in keys) and all(
+            (t.data[k1] * ref.data[k2] - t.data[k2] * ref.data[k1]).is_zero() for i_, k1 in enumerate(keys) for k2 in keys[i_ + 1:])
+        if not prop:
+            run.add("E19.isect", fn.short, label, VIOLATION,
+                    "the matrix whose components are returned is not a multiple of the symmetric product of the two intersection points: the returned points are "
+                    "not the points of the conic on the line", fn.loc)
+        elif got.flag is not (not is_dual):
+            run.add("E19.isect", fn.short, label, VIOLATION,
+                    "the point pair is handed to `components` as a quadric of the same kind as the conic: its components are then read as lines, not as points", fn.loc)
+        else:
+            run.add("E19.isect", fn.short, label, PROVEN, "the matrix handed to `components` is the symmetric product of the two intersection points, as a quadric of the other kind", fn.loc)
+    return n_ob
